@@ -299,6 +299,141 @@ def work(args):
         if j % nshards == shard:
             do_pair(fam, a, b, sc, st)
         j += 1
+    for fam, d, c in big_states():
+        if j % nshards == shard:
+            do_big(fam, d, c, sc, st)
+        j += 1
     out = MON.dump()
     out.update(driver_calls=st.calls, nontrivial=st.nontrivial, samples=st.samples, jobs=j)
     return out
+
+
+# ----------------------------------------------------------------------------- medium-size family ("big")
+# Exhaustive tiny scopes cannot reach code that only engages above a size threshold (fast paths, chunking, caches,
+# strategy switches).  This family adds a few dozen medium-size states (9-64 rows, 6-9 distinct values, 3-5 columns)
+# with patterned - not exhaustive - arguments, and histories of several mutating operations, all judged by the same
+# contracts.  Deterministic (fixed multiplicative generator), so the quick tier stays reproducible.
+
+
+def _lcg(seed):
+    x = seed & 0x7FFFFFFF or 1
+    while True:
+        x = (x * 48271) % 2147483647
+        yield x
+
+
+def big_states():
+    out = []
+    g = _lcg(20261003)
+    for n, k in ((9, 5), (17, 7), (33, 6), (64, 9)):
+        for skew in (0, 1):
+            vals = []
+            for i in range(n):
+                r = next(g) % 100
+                v = (0 if (skew and r < 70) else r % k)
+                vals.append(v)
+            d = np.array(vals, dtype=np.int64)
+            for c in (0, int(d[-1]), k + 3):
+                out.append(("1d", d, c))
+    for (n, cols, k) in ((10, 3, 5), (18, 5, 6), (40, 4, 7)):
+        cells = [(0 if next(g) % 10 < 6 else next(g) % k) for _ in range(n * cols)]
+        d = np.array(cells, dtype=np.int64).reshape(n, cols)
+        d[:, cols - 1] = 0  # a column holding only one value
+        for c in (0, 2, k + 1):
+            out.append(("2d", d, c))
+    return out
+
+
+def do_big(fam, d, c, sc, st):
+    from catii.iindexes import column_stack
+
+    ex = {"dense": d.tolist(), "common": c}
+    n = d.shape[0]
+    vals = sorted(set(d.reshape(-1).tolist()) | {c})
+    for v in [None] + vals + [99]:
+        x = mk(d, c)
+        _try(lambda: x.shift_common(v) if v is not None else x.shift_common())
+        st.call(True)
+    x = mk(d, c)
+    _try(lambda: x.copy())
+    col0 = d if d.ndim == 1 else d[:, 0]
+    masks = [np.ones(n, bool), np.zeros(n, bool), np.arange(n) % 2 == 0, np.arange(n) < n // 2, col0 != c, col0 == c,
+             (np.arange(n) * 7) % 5 < 3, np.arange(n) > 2]
+    for m in masks:
+        x = mk(d, c)
+        _try(lambda: x.filtered(m, int(m.sum())))
+        st.call(True, {"op": "filtered(big)", "rows": n})
+    maps = [None, {v: v for v in vals}, {v: v // 2 for v in vals}, {v: c for v in vals[:3]}, {v: v + 1 for v in vals}, {vals[0]: vals[-1]},
+            {v: (v * 3) % 4 for v in vals}]
+    for mp in maps:
+        for kw in ({}, {"assume_unique": True}, {"copy": False, "shift": False}):
+            x = mk(d, c)
+            _try(lambda: x.reindexed(dict(mp) if mp is not None else None, **kw))
+            st.call(True)
+    x = mk(d, c)
+    if d.ndim == 1:
+        _try(lambda: x.common_rowids())
+    else:
+        for col in range(d.shape[1]):
+            _try(lambda: x.common_rowids(col))
+    _try(lambda: x.to_dict(force=True))
+    for v in vals:
+        for h in ([()] if d.ndim == 1 else [(j,) for j in range(d.shape[1])]):
+            _try(lambda: x.get((v,) + h, force=True))
+    # updates: patterned assignments (incl. cells set to the common value) applied one after another to the SAME index
+    x = mk(d, c)
+    cells = list(np.ndindex(*d.shape))
+    plans = [cells[::3], cells[1::4], cells[: len(cells) // 2], cells[-5:]]
+    newvals = [c, vals[-1], 9, vals[0]]
+    for plan, nv in zip(plans, newvals):
+        ent = collections.defaultdict(list)
+        for cell in plan:
+            ent[(nv,) + tuple(cell[1:])].append(cell[0])
+        ent = {k: np.array(sorted(v), dtype=U32) for k, v in ent.items()}
+        _try(lambda: x.update(ent))
+        _try(lambda: x.shift_common())
+        st.call(True, {"op": "update-history(big)"})
+    if d.ndim == 2:
+        C = d.shape[1]
+        for o in (None, 0, C - 1, list(range(C)), list(range(C - 1, -1, -1)), [C - 1, 0], []):
+            x = mk(d, c)
+            _try(lambda: x.sliced(o))
+        x = mk(d, c)
+        ok, sl = _try(lambda: list(x.slices1d()))
+        if ok:
+            MON.check("iindexes.iindex.slices1d/ensures-view-coords-each-exactly-once", sorted(co for co, _ in sl) == [(j,) for j in range(C)], "coordinates", ex)
+            for co, s in sl:
+                if co in [(j,) for j in range(C)]:
+                    MON.check("iindexes.iindex.slices1d/ensures-view-of-slice", (not wf(s)) and np.array_equal(view(s), d[:, co[0]]), "slice %r" % (co,), ex)
+        for p in (vals, vals[::-1], vals[1::2] + [c], [vals[-1], -1], [9] + vals[:2], vals[:1]):
+            if len(set(p)) == len(p) and p:
+                x = mk(d, c)
+                _try(lambda: x.collapsed(list(p)))
+                st.call(True)
+    # binary operations and a history of several mutating operations on one object
+    e = d[::-1].copy()
+    for k in (c, vals[0], 77):
+        x, y = mk(d, c), mk(e, k)
+        _try(lambda: x.append(y))
+        _try(lambda: x.append(mk(d[:3], vals[-1])))
+        _try(lambda: x.shift_common(vals[0]))
+        _try(lambda: x.append(y))
+        st.call(True, {"op": "append-history(big)"})
+        x, y = mk(d, c), mk(e, k)
+        okq, r = _try(lambda: x == y)
+        MON.check("iindexes.iindex.__eq__/eq-iff-same-shape-common-content", okq and bool(r) == (c == k and np.array_equal(d, e)), "== on big states", ex)
+        x2 = mk(d, c)
+        d2 = d.copy()
+        d2.reshape(-1)[-1] = (d2.reshape(-1)[-1] + 1) % (max(vals) + 2)
+        y2 = mk(d2, c)
+        okq, r = _try(lambda: x2 == y2)
+        okq2, r2 = _try(lambda: y2 == x2)
+        MON.check("iindexes.iindex.__eq__/eq-iff-same-shape-common-content", okq and okq2 and bool(r) is False and bool(r2) is False,
+                  "indexes differing in one cell compare equal", ex)
+        for name in ("union_update", "intersection_update", "difference_update"):
+            x, y = mk(d, c), mk(e, c)
+            _try(lambda: getattr(x, name)(y))
+        for cp in (False, True):
+            _try(lambda: column_stack([mk(d, c), mk(e, k), mk(d, k)], copy=cp))
+            _try(lambda: column_stack([mk(d, c), mk(e, k)], new_common=vals[-1], copy=cp))
+        st.call(True)
